@@ -87,6 +87,20 @@ def check_roundtrip(rep, d, text):
     c3 = Config.from_dict(d)
     if attrs_of(Config(c3.decompile_to_text())) != d:
         rep.violation('failing-input', {'config_dict': d, 'why': 'from_dict -> text -> Config loses settings'})
+    c4 = Config.from_kwargs(**d)
+    if attrs_of(c4) != d or attrs_of(Config(c4.decompile_to_text())) != d:
+        rep.violation('failing-input', {'config_dict': d, 'why': 'from_kwargs -> text -> Config loses settings'})
+    # the configuration of an object, read back from the object (Config.from_parent), goes through text unchanged too
+    import pytrs
+    for obj in (pytrs.PLSSDesc('T154N-R97W Sec 14: NE/4', config=text, wait_to_parse=True), pytrs.Tract('NE/4', config=text)):
+        c5 = Config.from_parent(obj)
+        want = {a: getattr(obj, a, None) for a in ('layout', 'parse_qq', 'clean_qq', 'default_ns', 'default_ew', 'suppress_lot_divs')}
+        got = {a: getattr(c5, a) for a in want}
+        back = Config(c5.decompile_to_text())
+        if got != want or attrs_of(back) != attrs_of(c5):
+            rep.violation('failing-input', {'config_text': text, 'object': type(obj).__name__,
+                                            'why': 'Config.from_parent does not carry the object\'s settings through text and back',
+                                            'object_settings': want, 'from_parent': got, 'after_text': attrs_of(back)})
 
 
 class Capture:
